@@ -12,6 +12,8 @@ import FoxModel.Driver.Mw
 import FoxModel.Driver.Opts
 import FoxModel.Driver.Ctx
 import FoxModel.Driver.Parse
+import FoxModel.Driver.LRU
+import FoxModel.Driver.Bulk
 /-
   foxmodel — line-protocol driver: one case per input line (tab separated, first field = stream name),
   one output line per case. Core Lean only (links without Mathlib).
@@ -39,6 +41,8 @@ def dispatch (line : String) : String :=
   | some "parse" => Driver.Parse.handle fields
   | some "routable" => Driver.Parse.handle fields
   | some "hist" => Driver.Ops.handle (fields.take 2)
+  | some "lru" => Driver.LRU.handle fields
+  | some "bulk" => Driver.Bulk.handle fields
   | _ => "M=unknown-stream"
 
 partial def loop (h : IO.FS.Stream) (out : IO.FS.Stream) : IO Unit := do
